@@ -57,6 +57,11 @@ def make_value(kind, token):
         k = 2 + token[2] % 9
         return pd.DataFrame({'caller': [sched.GateStr(str(token[1]))] + [str(token[1])] * (k - 1), 'n': [token[2]] * k})
     import numpy as np
+    if kind == 'npybig':
+        # an array of more than 16 MiB (every computation fills it with its own number)
+        a = np.full(2_200_000, float(token[2]))
+        a[1] = float(sum(map(ord, str(token[1]))))
+        return a
     if token[2] % 2:
         # object array: stored by pickling its elements
         a = np.empty(2 * (2 + token[2] % 7), dtype=object)
@@ -82,7 +87,7 @@ def run_schedule(cfg, chooser, gate_all=False):
         shared = cls(tmp / 'cache')
         if cfg['present']:
             tok = uniq.next('init')
-            v0 = make_value(kind, tok)
+            v0 = make_value('npybig' if cfg.get('big') else kind, tok)
             shared.get_or_compute(KEY, lambda: v0)
             if cfg['present'] == 'damaged':
                 # what an interrupted earlier writer left behind: the first half of an entry (never a value; to be recomputed, and `get` says NO_VALUE)
@@ -109,7 +114,7 @@ def run_schedule(cfg, chooser, gate_all=False):
         shared = cls(tmp / 'cache')
         if cfg['present']:
             tok = uniq.next('init')
-            v0 = make_value(kind, tok)
+            v0 = make_value('npybig' if cfg.get('big') else kind, tok)
             shared.get_or_compute(KEY, lambda: v0)
             if cfg['present'] == 'damaged':
                 # what an interrupted earlier writer left behind: the first half of an entry (never a value; to be recomputed, and `get` says NO_VALUE)
@@ -133,7 +138,7 @@ def run_schedule(cfg, chooser, gate_all=False):
                     ctl.note('computed', -1)
                     raise ComputeBoom(f'computer of caller {i} fails')
                 tok = uniq.next(i)
-                v = make_value(kind, tok)
+                v = make_value('npybig' if cfg.get('big') else kind, tok)
                 calls[i]['computed_value'] = tcanon(v)
                 produced.append(tcanon(v))
                 ctl.note('computed', tok[2])
@@ -366,6 +371,8 @@ def run_case(case) -> CaseResult:
                 res.count('schedules_of_independently_started_interpreters')
             if cfg.get('present') == 'damaged':
                 res.count('schedules_over_a_damaged_entry')
+            if cfg.get('big'):
+                res.count('schedules_with_arrays_over_16_MiB')
             if res.violations:
                 break
         res.sample = {'cfg': cfg, 'mode': case['mode'], 'n': case['n']}
@@ -392,6 +399,10 @@ def cases(tier, seed):
         for cache in ('pd', 'npy'):
             for a, b in (('get', 'force'), ('goc', 'force')):
                 yield {'mode': 'dfs', 'cfg': {'ops': [a, b], 'present': True, 'same_object': False, 'cache': cache}, 'cap': 6000}
+    # arrays of more than 16 MiB: a reader between a forced writer's statements must never see a well-formed file that is not a computed value
+    for i in range(4 if tier == 'quick' else 40):
+        yield {'mode': 'random', 'cfg': {'ops': [rng.choice(['get', 'goc']), 'force'], 'present': True, 'same_object': False, 'cache': 'npy', 'big': True},
+               'n': 6, 'seed': rng.randrange(1 << 30), 'gate_all': True}
     caches3 = caches if tier != 'quick' else ['json', 'json', 'pd', 'npy']
     # a probing `get` next to two computing callers on an absent key (what the probe does after releasing the lock matters to the others)
     for i in range(20 if tier == 'quick' else 300):
